@@ -21,7 +21,7 @@
    only a lead: it is replayed into the real code, and only the real code's answer is a verdict. *)
 EXTENDS Integers, Sequences, FiniteSets, TLC, Json
 
-CONSTANTS Family,     \* "resolve" | "rewrite" | "status" | "admin"
+CONSTANTS Family,     \* "resolve" | "resolve_obs" | "rewrite" | "status" | "admin"
           Variant,    \* "code" | "repaired"
           Depth       \* 0 = quick vocabularies, 1 = thorough
 
@@ -31,11 +31,14 @@ SeqOf(order, S) == SelectSeq(order, LAMBDA x : x \in S)
 -------------------------------------------------------------------------------
 (* C34.  A host is a sequence of labels, a label a sequence of one-character strings, so that ASCII case is
    visible to the specification.  *)
-LowerOf == ("A" :> "a") @@ ("C" :> "c") @@ ("E" :> "e") @@ ("O" :> "o") @@ ("Y" :> "y")
-Upper   == DOMAIN LowerOf
-Lowers  == {LowerOf[u] : u \in Upper}
-UpperOf == [l \in Lowers |-> CHOOSE u \in Upper : LowerOf[u] = l]
-Chars   == Upper \cup Lowers \cup {"1", "2", "5", "6", "-"}
+UpperSeq == <<"A", "B", "C", "D", "E", "F", "G", "H", "I", "J", "K", "L", "M", "N", "O", "P", "Q", "R", "S", "T", "U", "V", "W", "X", "Y", "Z">>
+LowerSeq == <<"a", "b", "c", "d", "e", "f", "g", "h", "i", "j", "k", "l", "m", "n", "o", "p", "q", "r", "s", "t", "u", "v", "w", "x", "y", "z">>
+Upper   == {UpperSeq[i] : i \in 1..26}
+Lowers  == {LowerSeq[i] : i \in 1..26}
+LowerOf == [u \in Upper |-> LowerSeq[CHOOSE i \in 1..26 : UpperSeq[i] = u]]
+UpperOf == [l \in Lowers |-> UpperSeq[CHOOSE i \in 1..26 : LowerSeq[i] = l]]
+Digits  == {"0", "1", "2", "3", "4", "5", "6", "7", "8", "9"}
+DigitVal == [d \in Digits |-> CHOOSE n \in 0..9 : ToString(n) = d]
 
 LowC(ch)     == IF ch \in Upper THEN LowerOf[ch] ELSE ch
 LowLabel(l)  == [i \in 1..Len(l) |-> LowC(l[i])]
@@ -46,7 +49,9 @@ HasUpper(h)  == \E i \in 1..Len(h) : \E j \in 1..Len(h[i]) : h[i][j] \in Upper
 Vocab == {<<"a">>, <<"e">>, <<"c", "o">>, <<"1">>, <<"2", "5", "5">>}
            \cup (IF Depth > 0 THEN {<<"y">>, <<"2", "5", "6">>, <<"a", "-", "1">>} ELSE {})
 VariantsOfChar(ch) == IF ch \in Lowers THEN {ch, UpperOf[ch]} ELSE {ch}
-CaseVariants(l)    == {v \in [1..Len(l) -> Chars] : \A i \in 1..Len(l) : v[i] \in VariantsOfChar(l[i])}
+RECURSIVE CaseVariants(_)
+CaseVariants(l)    == IF l = <<>> THEN {<<>>}
+                      ELSE {<<ch>> \o rest : ch \in VariantsOfChar(Head(l)), rest \in CaseVariants(Tail(l))}
 Labels    == UNION {CaseVariants(l) : l \in Vocab}
 MaxLabels == 4
 Hosts     == UNION {[1..n -> Labels] : n \in 1..MaxLabels}
@@ -57,9 +62,14 @@ RootLists == << <<>>,
                 << <<<<"c", "o">>, <<"e">>>>, <<<<"a">>, <<"e">>, <<"c", "o">>>> >> >>
 PortSeq   == <<443, 8443>>          \* parseAddr is tried with each, extractHostname without a port
 
-(* decimal octets in the vocabulary; "256" is numeric but not an octet *)
-Octets    == {<<"1">>, <<"2", "5", "5">>}
-IsIPv4(h) == Len(h) = 4 /\ \A i \in 1..4 : h[i] \in Octets
+(* an IPv4 literal is four decimal octets 0..255 without leading zeros (what net.ParseIP accepts); "256" is numeric
+   but not an octet *)
+NumVal(l)  == IF Len(l) = 1 THEN DigitVal[l[1]]
+              ELSE IF Len(l) = 2 THEN 10 * DigitVal[l[1]] + DigitVal[l[2]]
+              ELSE 100 * DigitVal[l[1]] + 10 * DigitVal[l[2]] + DigitVal[l[3]]
+IsOctet(l) == /\ Len(l) \in 1..3 /\ \A i \in 1..Len(l) : l[i] \in Digits
+              /\ (Len(l) > 1 => l[1] # "0") /\ NumVal(l) <= 255
+IsIPv4(h)  == Len(h) = 4 /\ \A i \in 1..4 : IsOctet(h[i])
 (* address literals that are not dotted label sequences; all must be refused *)
 Literals  == {"::1", "fe80::1", "2001:db8::1", "::ffff:1.2.3.4", "::ffff:10.0.0.1", "::1.2.3.4", "64:ff9b::192.0.2.33"}
 
@@ -91,6 +101,13 @@ ResolveCases ==
     \cup [host : HostsUpTo(IF Depth > 0 THEN MaxLabels ELSE 3), lit : {""}, roots : {RootLists[1]}, ports : {PortSeq}]
     \cup [host : {<<>>}, lit : Literals, roots : {RootLists[2]}, ports : {PortSeq}]
 ResolveExpected(x) == IF x.lit # "" THEN Refused ELSE ResolveDecl(x.host, x.roots)
+
+(* backward direction (family resolve_obs): hosts drawn at random by the check (all ASCII letters, longer labels, up to
+   six labels, real-looking root domains), resolved by the real code, are read back (obs_resolve.ndjson:
+   {"c": {host, roots}, "o": [{ok, name}...]}, names split into labels and characters) and judged by the same ResolveDecl *)
+ObsRecs == IF Family = "resolve_obs" THEN ndJsonDeserialize("obs_resolve.ndjson") ELSE <<>>
+ObsVerdict(r) == LET want == ResolveDecl(r.c.host, r.c.roots) IN
+  [want |-> want, good |-> \A k \in 1..Len(r.o) : r.o[k].ok = want.ok /\ (want.ok => r.o[k].name = want.name)]
 
 -------------------------------------------------------------------------------
 (* C35.  Headers are functions name -> sequence of values (<<>> = absent).  *)
@@ -245,12 +262,14 @@ VARIABLES c, done
 vars == <<c, done>>
 
 Cases == CASE Family = "resolve" -> ResolveCases
+           [] Family = "resolve_obs" -> 1..Len(ObsRecs)
            [] Family = "rewrite" -> RewriteCases
            [] Family = "status"  -> StatusCases
            [] Family = "admin"   -> AdminCases
 
 CaseOut(x)  == IF Family = "rewrite" THEN RewriteCase(x) ELSE x
 Expected(x) == CASE Family = "resolve" -> ResolveExpected(x)
+                 [] Family = "resolve_obs" -> ObsVerdict(ObsRecs[x])
                  [] Family = "rewrite" -> RewriteExpected(x)
                  [] Family = "status"  -> StatusExpected(x)
                  [] Family = "admin"   -> AdminExpected(x)
@@ -258,6 +277,7 @@ Expected(x) == CASE Family = "resolve" -> ResolveExpected(x)
 (* Impl against Decl, for the variant v of the transcription *)
 Holds(x, v) ==
   CASE Family = "resolve" -> x.lit # "" \/ ResolveImpl(x.host, x.roots, v) = ResolveDecl(x.host, x.roots)
+    [] Family = "resolve_obs" -> TRUE
     [] Family = "rewrite" -> LET in == InHeaders(x.set, x.dup) IN
                              RewriteDecl(in, x.peer, x.port, RewriteImpl(in, x.peer, x.port, HostHeader(x.hp, x.port), v))
     [] Family = "status"  -> StatusHolds(x, v)
